@@ -18,6 +18,7 @@ import (
 	"net"
 	"net/netip"
 	"runtime"
+	"strings"
 	"sync"
 	"sync/atomic"
 	"testing"
@@ -359,6 +360,12 @@ func vfC09Run(e *vfEnv, r *vfResult, idx int) { //nolint:cyclop,maintidx
 		}
 	}
 	var opts []AgentOption
+	// continual gathering: after the first pass a monitor goroutine re-runs the gatherers whenever a new interface
+	// address appears; its sockets belong to the generation too
+	continual := (x.kind == "host" || x.kind == "host+srflx") && rng.IntN(3) == 0
+	if continual {
+		opts = append(opts, WithContinualGatheringPolicy(GatherContinually), WithNetworkMonitorInterval(time.Millisecond))
+	}
 	switch x.kind {
 	case "host":
 		cfg.CandidateTypes = []CandidateType{CandidateTypeHost}
@@ -513,23 +520,71 @@ func vfC09Run(e *vfEnv, r *vfResult, idx int) { //nolint:cyclop,maintidx
 
 			return true
 		}
+		// waitPass waits for the end of the gathering pass.  With continual gathering the cycle itself only ends when it is
+		// cancelled (it keeps monitoring), so the pass is taken to be over when nothing has been opened or
+		// published for three STUN timeouts.
+		waitPass := func() bool {
+			if !continual {
+				select {
+				case <-done:
+					return true
+				case <-time.After(15 * time.Second):
+					return false
+				}
+			}
+			last, since := -1, time.Now()
+			for dl := time.Now().Add(15 * time.Second); time.Now().Before(dl); time.Sleep(200 * time.Microsecond) {
+				lc, err := a.GetLocalCandidates()
+				if err != nil {
+					return true
+				}
+				if n := len(lc) + len(x.sw.openSockets("A")); n != last {
+					last, since = n, time.Now()
+				} else if time.Since(since) > 3*stunTO { // nothing opened or published for three STUN timeouts
+					return true
+				}
+			}
+
+			return false
+		}
 		switch cut {
 		case "reply-then-wait":
 			replyAll()
-			select {
-			case <-done:
-			case <-time.After(15 * time.Second):
+			if !waitPass() {
 				r.inconclusive(1)
 
 				return
 			}
-			if rng.IntN(3) == 0 {
+			if continual {
+				// a new interface comes up: the monitor regathers; sometimes the next action races that regathering
+				newIP := fmt.Sprintf("10.0.%d.1", 100+c)
+				if vn, ok := cfg.Net.(*vfNet); ok {
+					vn.addInterface(fmt.Sprintf("eth9%d", c), newIP)
+					x.trace = append(x.trace, "interface-up "+newIP)
+					if rng.IntN(2) == 0 {
+						for dl := time.Now().Add(2 * time.Second); time.Now().Before(dl); time.Sleep(50 * time.Microsecond) {
+							found := false
+							for _, oc := range x.sw.openSockets("A") {
+								if oc.local.Addr().String() == newIP {
+									found = true
+								}
+							}
+							if found {
+								x.trace = append(x.trace, "regathered")
+
+								break
+							}
+						}
+					}
+				}
+				r.count("c09_continual_gathering_runs", 1)
+			} else if rng.IntN(3) == 0 {
 				// continual gathering re-runs the local gatherer inside one cycle: candidates on a mux are duplicates and must be released at once
 				x.trace = append(x.trace, "regather-local")
 				a.gatherCandidatesLocal(context.Background(), a.networkTypes)
 			}
 			// quiescent point after a completed cycle: what is open is exactly what the listed candidates hold
-			if msg := x.heldVsOpen(); msg != "" {
+			if msg := x.heldVsOpen(); msg != "" && !continual { // (with the monitor goroutine regathering there is no quiescent point here)
 				r.violation("rejected-candidate-resource-kept:"+x.kind, msg, wit())
 
 				return
@@ -546,9 +601,7 @@ func vfC09Run(e *vfEnv, r *vfResult, idx int) { //nolint:cyclop,maintidx
 		case "cut-before-reply-no-reply":
 			cutNow()
 		case "no-reply-timeout":
-			select {
-			case <-done:
-			case <-time.After(15 * time.Second):
+			if !waitPass() {
 				r.inconclusive(1)
 
 				return
@@ -565,7 +618,16 @@ func vfC09Run(e *vfEnv, r *vfResult, idx int) { //nolint:cyclop,maintidx
 				return
 			}
 			r.eval(1)
-			if lk := x.leaks(false); len(lk) > 0 {
+			lk := x.leaks(false)
+			if continual && len(lk) > 0 {
+				// the monitor goroutine's own regathering pass is not covered by the cycle's done channel: give the
+				// superseded gathering the bounded time the statement grants it ("once it has wound down")
+				for dl := time.Now().Add(3 * time.Second); time.Now().Before(dl) && len(lk) > 0; time.Sleep(100 * time.Microsecond) {
+					lk = x.leaks(false)
+				}
+				r.count("c09_continual_winddown_waits", 1)
+			}
+			if len(lk) > 0 {
 				sig := "leak-after-restart:" + x.kind
 				r.violation(sig, fmt.Sprintf("Restart returned and the superseded gather cycle wound down, but %d resource(s) of the ended generation are still open: %v", len(lk), lk), wit())
 
@@ -767,6 +829,120 @@ func vfC09ActiveTCP(e *vfEnv, r *vfResult, idx int) { //nolint:cyclop
 	r.distinct(fmt.Sprintf("activetcp/%s/accepted=%d", script, acc))
 }
 
+// vfC09ContinualClose: directed schedule for continual gathering.  A new interface address appears, the monitor
+// goroutine starts regathering and is parked inside its first socket open; Close is called meanwhile.  Close must not
+// return while that gathering is still under way: no socket of the agent may be opened after Close has returned.
+func vfC09ContinualClose(e *vfEnv, r *vfResult, idx int) {
+	rng := e.rng(idx, "c09continual")
+	sw := newVfSwitch()
+	nIP := 1 + rng.IntN(3)
+	ips := []string{}
+	for i := 0; i < nIP; i++ {
+		ips = append(ips, fmt.Sprintf("10.0.%d.1", i))
+	}
+	vn := vfSimpleNet(sw, "A", ips...)
+	a, err := newAgentFromConfig(&AgentConfig{Net: vn, NetworkTypes: []NetworkType{NetworkTypeUDP4}, CandidateTypes: []CandidateType{CandidateTypeHost},
+		MulticastDNSMode: MulticastDNSModeDisabled, LoggerFactory: vfQuietLogger()},
+		WithContinualGatheringPolicy(GatherContinually), WithNetworkMonitorInterval(time.Millisecond))
+	if err != nil {
+		r.inconclusive(1)
+
+		return
+	}
+	_ = a.OnCandidate(func(Candidate) {})
+	if err := a.GatherCandidates(); err != nil {
+		_ = a.Close()
+		r.inconclusive(1)
+
+		return
+	}
+	// first pass: every address has its host candidate
+	for dl := time.Now().Add(10 * time.Second); time.Now().Before(dl); time.Sleep(100 * time.Microsecond) {
+		if lc, err := a.GetLocalCandidates(); err == nil && len(lc) >= nIP {
+			break
+		}
+	}
+	gate := make(chan struct{})
+	sw.mu.Lock()
+	sw.parkOwner, sw.parkGate = "A", gate
+	sw.mu.Unlock()
+	vn.addInterface("eth9", "10.0.200.1")
+	parked := false
+	for dl := time.Now().Add(3 * time.Second); time.Now().Before(dl); time.Sleep(50 * time.Microsecond) {
+		if sw.parked.Load() > 0 {
+			parked = true
+
+			break
+		}
+	}
+	final := []string{"close", "graceful-close", "restart-close"}[rng.IntN(3)]
+	closed := make(chan int64, 1)
+	go func() {
+		switch final {
+		case "close":
+			_ = a.Close()
+		case "graceful-close":
+			_ = a.GracefulClose()
+		default:
+			_ = a.Restart("", "")
+			_ = a.Close()
+		}
+		closed <- sw.seq.Add(1) // "Close returned" in the switch's event order
+	}()
+	// observation window: does Close return while the monitor's gathering is parked?
+	var closeSeq int64 = -1
+	select {
+	case closeSeq = <-closed:
+	case <-time.After(30 * time.Millisecond):
+	}
+	sw.mu.Lock()
+	sw.parkGate = nil
+	sw.mu.Unlock()
+	close(gate)
+	if closeSeq < 0 {
+		select {
+		case closeSeq = <-closed:
+		case <-time.After(30 * time.Second):
+			r.violation("close-stuck-with-continual-gathering", fmt.Sprintf("history %d: %s did not return within 30 s after the parked gatherer was released", idx, final), map[string]any{"idx": idx, "stacks": vfStacks()})
+
+			return
+		}
+	}
+	// let the released gatherer finish (bounded), then look at the order of events
+	for dl := time.Now().Add(2 * time.Second); time.Now().Before(dl) && strings.Contains(vfStacks(), "(*Agent).gatherCandidatesLocal"); time.Sleep(100 * time.Microsecond) {
+	}
+	r.eval(1)
+	if !parked {
+		r.count("c09_continual_close_not_parked", 1)
+	}
+	var late []string
+	sw.mu.Lock()
+	for _, c := range sw.all {
+		if c.owner == "A" && c.createdSeq > closeSeq {
+			late = append(late, c.local.String())
+		}
+	}
+	sw.mu.Unlock()
+	wit := map[string]any{"idx": idx, "final": final, "gatherer_parked_before_close": parked, "addresses": ips}
+	if len(late) > 0 {
+		r.violation("socket-opened-after-close-returned:continual-gathering", fmt.Sprintf("history %d: %s returned while the continual-gathering monitor was still gathering: %d socket(s) %v were opened after it had returned", idx, final, len(late), late), wit)
+	}
+	var open []string
+	for dl := time.Now().Add(2 * time.Second); ; time.Sleep(100 * time.Microsecond) {
+		open = open[:0]
+		for _, c := range sw.openSockets("A") {
+			open = append(open, c.local.String())
+		}
+		if len(open) == 0 || time.Now().After(dl) {
+			break
+		}
+	}
+	if len(open) > 0 {
+		r.violation("leak-after-close:continual-gathering", fmt.Sprintf("history %d: sockets still open 2 s after %s: %v", idx, final, open), wit)
+	}
+	r.distinct(fmt.Sprintf("continual-close/%s/ips%d/parked=%v", final, nIP, parked))
+}
+
 func TestVerifC09(t *testing.T) {
 	vfRun(t, "C09", func(e *vfEnv, r *vfResult) {
 		n := e.n(1600, 60000)
@@ -785,6 +961,9 @@ func TestVerifC09(t *testing.T) {
 		}
 		for i := 0; i < e.n(60, 2400); i++ {
 			vfC09ActiveTCP(e, r, i)
+		}
+		for i := 0; i < e.n(60, 2400); i++ {
+			vfC09ContinualClose(e, r, i)
 		}
 	})
 }
